@@ -296,6 +296,19 @@ func c14sScenarios(thorough bool) []c14sScn {
 					},
 				}
 			}},
+		{Name: "a peer that was tagged early (temporary record past the grace period) connects while a trim runs", Low: 1, Hi: 2, Peers: []string{"A", "B", "C"}, Tags: map[string]int{"A": 10, "B": 5, "C": 3, "D": 1},
+			Race: func(e *c14sEnv) []func() {
+				// the trim may prune the temporary record before the peer connects (its early tag goes with it, as in the
+				// sequential model: "trim: early-tag entry pruned"), so D's tag total is only checked for consistency
+				delete(e.tags, "D")
+				return []func(){
+					func() { e.trim() },
+					func() {
+						vs.Locked(func() { e.fresh["D1"] = true })
+						e.connect("D1", "D") // the record stops being temporary: its grace period starts now
+					},
+				}
+			}},
 		{Name: "UpsertTag races TagPeer on one peer and one tag", Bound: 3, Low: 1, Hi: 2, Peers: []string{"A", "B", "C"}, Tags: map[string]int{"B": 50, "C": 60},
 			Race: func(e *c14sEnv) []func() {
 				delete(e.tags, "A")
